@@ -8,25 +8,64 @@ Sub-checks
  raw        alias, binary search tree, Huffman tree on EVERY weak composition of D units into K parts (p = j/D; zeros, ties,
             dominant entries included), K <= 5 (6 thorough), D = 16 (+ 12, 10 thorough), probed at the mid-point of every cell
             of the lattice 1/(K D): all break points of these samplers on such targets lie on that lattice, so the INTEGER
-            count per state must equal p_k K D exactly; plus hand-listed extremes by partition recovery.
- rawtable   table method = function of a 32-bit integer (seam random.getrandbits): for each of the 256 low bytes the map
-            "upper 24 bits -> state" is recovered exactly by integer bisection; the law must be p within 2^-20 and the 256-slot
-            table must hold floor(256 p_k) copies of k. Vectors: compositions with D in {16, 12, 10} (16: all multiples of 1/256).
+            count per state must equal p_k K D exactly. The "never" clause is judged on single floats as well: every point
+            j/D and x/K (the break points themselves), the float on either side of it, 0 and 1-2^-53 must give a state of
+            positive probability inside the range.
+ rawx       hand-listed extremes (tiny / dominant / tied / zero entries, K <= 11) by partition recovery.
+ rawbig     vectors of 257, 300 and 1000 entries (1024 and 4096 in thorough): linear, geometric blocks with ties and zeros,
+            uniform, three dominant entries + a long tail; alias / tree / Huffman by partition recovery, the table method (on
+            the dominant vector, whose table has direct and residual slots) by `table_law`. Index dtypes, the incomplete last
+            level of the implicit heap and long tie runs of the Huffman heap only show at these sizes.
+ rawtable   table method = function of a 32-bit integer (seam random.getrandbits; the seam answers a request for n bits with
+            the n leading bits of the scripted word, as the environment would): for each of the 256 low bytes the map
+            "upper 24 bits -> state" is recovered exactly by integer bisection (a low byte whose answer does not depend on 4
+            spread upper parts is counted as one direct slot); the law must be p within 2^-20. Vectors: compositions with D
+            in {16, 12, 10} (16: all multiples of 1/256). Only the law is judged, not the layout of the table.
  chain      samplers built by the public factory (MarkovChainProcess / MarkovChainLevyCopula with every sampling method the
-            constructor accepts) on 1-d, 2-d and 3-d chains: partition recovery of the single-uniform entry point, compared
-            with the target law mass(cell)/intensity computed on reference cells; never a zero-probability state, a state off
-            the grid, or the origin; probes at every recovered break point +- 1 ulp, at 0 and at 1-2^-53; the batch call
-            equals the element-wise single-uniform call (numpy.random.uniform seam); the inversion sampler's hidden
-            numpy.random.choice is an enumerated environment answer (first / last element): any u whose result depends on it
-            beyond the last ulps of [0,1) is a violation.
- history    explicit-state search over draw histories on one sampler object (inversion with default and shrunk storage,
-            adapted tree 1-d, adapted tree n-d with fresh and re-used argument arrays): menu = one u per state interval + the u
-            just above the memoised frontier + 0 + 1-2^-53; invariant: answer(u | history) = answer(u | fresh sampler).
+            constructor accepts): partition recovery of the single-uniform entry point, compared with the target law
+            mass(cell)/intensity computed on reference cells. A state of target probability exactly 0, a state off the grid
+            or the origin is a violation on ANY probe (all break points +- 1 ulp, 0, 1-2^-53, the column edges of the alias
+            table), whatever the length of the piece. The batch call (one u at the start of up to 400 pieces, the float
+            before it, 0, top) equals the element-wise single-uniform call (numpy.random.uniform seam; the seam answers
+            low + (high-low) w for the scripted fractions w, so a request for another interval is seen in the answers; the
+            table method: sample(96) against 96 x sample(1) on scripted words). The inversion sampler's hidden
+            numpy.random.choice is an enumerated environment answer (first / last element): any u whose result depends on
+            it beyond the last (8 + number of states) ulps of [0,1) is a violation. Inversion also under a scaled-down log
+            (`_max_storage` below the number of states); if the log then grows beyond it the scaled regime was not reached
+            and a cap is recorded (the run is not exhaustive), not an alarm.
+            Alphabet (quick): 1-d: HEM, VG, CGMY 0.5 / 1.2, exp-Merton x {fixed 3 / 5 points, uniform (model truncation),
+            geometric (model truncation), geometric with bounds, probability step, credit (threshold moved to 0.8 l when
+            0.5 l does not fit: VG)} x refinement 0 / 1 x 6 methods; the "reinit" construction twin of each family
+            (mc.alphabets.with_reinit) on one grid; ONE-SIDED model (HEM p = 1; p = 0 is refused by the library: the states of the
+            negative half axis have probability exactly 0) on fixed / geometric-bounds / hand-made grids; hand-made CTMCGrid axes with ONE point on
+            one side of the origin and several on the other (both orientations); a 400-state chain (h = 0.01, 401 points;
+            every method but the table). 2-d (inversion, adapted tree): Clayton pairs (one with eta = 1: the mixed-sign
+            quadrants have probability 0), independent and complete-dependence copula, one one-sided margin x {fixed 3 / 5
+            (refined once too), credit symmetric / asymmetric, uniform by model truncation (a model whose left bound falls
+            within h keeps ONE left point), geometric (model) and geometric with bounds, hand-made one-point half axes}.
+            3-d: fixed 3^3, 5^3, hand-made one-point half axis (4^3).
+ history    explicit-state search (BFS, depth 3; 4 in thorough) over operation histories on ONE sampler object, for every
+            method (inversion with default and shrunk log, adapted trees 1-d / n-d with a RE-USED argument array, alias, tree,
+            Huffman, table), 1-d, 2-d and 3-d, including a one-point half axis and a one-sided model. Menu: a draw at one u
+            per state interval / at the frontier of the memo / 0 / top (thinned to 14), and for a spread sub-menu of these
+            u: the public cost reset (process.reset_one_simulation_cost + sampling.reset_sampling_cost, what the engines
+            call between runs) then a draw; copy.deepcopy of the process then a draw on the copy; a dill round trip (what
+            the pathos pool does) then a draw; a batch call sample(3); a SECOND sampler of the same method for another
+            model built on the same grid object, drawn from, then a draw on the first. Invariant: every answer equals the
+            answer of a fresh sampler for the same u (the second sampler is compared with its own fresh twin as well).
+            Canonical state = digest of the integer / float / container-size attributes of the sampler and of the objects of
+            rpylib.distribution it owns (cost counters excluded) + the set of u drawn + the sequence of non-draw operations.
+Exclusions (statement silent): grid.refine() after the sampler was built (the target law itself changes); n-d
+ probability-step grids (their middle() is one-dimensional; C13); model-truncated grids for one-sided models (the
+ truncation helper divides by the mass of the empty side); the un-cached axis branch of the n-d adapted tree (>= 10 001
+ points).
 Assumption (stated in the evidence): partition recovery starts from a dyadic sweep of n0 >= 16 x (number of states) probes;
  a piece that starts and ends strictly between two neighbouring probes that agree would be missed.
 """
 from __future__ import annotations
 
+import collections
+import copy
 import itertools
 import math
 
@@ -39,9 +78,11 @@ from mc import oracle as O
 PID = "C02"
 LEVEL = "model_checking"
 RULE = (
-    "raw: every weak composition of D units into K parts for the stated (K, D), each probed on the complete lattice 1/(KD); "
+    "raw: every weak composition of D units into K parts for the stated (K, D), each probed on the complete lattice 1/(KD) and on "
+    "both sides of every possible break point; rawbig: the stated long vectors; "
     "chain: every (model, grid, refinement, sampling method) of the stated lattice, law recovered by bisection to 1 ulp; "
-    "history: BFS over draw histories up to the stated depth; a case is non-trivial when a law with at least two states of "
+    "history: BFS over operation histories (draws, cost reset, deepcopy, dill round trip, batch call, second sampler on the grid) "
+    "up to the stated depth; a case is non-trivial when a law with at least two states of "
     "positive probability was compared; states/transitions are those of the history search"
 )
 ASSUMPTIONS = [
@@ -49,10 +90,12 @@ ASSUMPTIONS = [
     "dyadic sweep (n0 >= 16 x number of states)",
     "target law of a chain sampler = process.model.mass(reference cell) / process.intensity_of_jumps (cells re-derived from "
     "the axes with the grid's own middle()); the masses themselves are the subject of C01 / C09 / C12",
-    "inversion sampler: _max_storage shrunk to 3 is a scaled-down model of the overflow regime at 10^6 (labelled 'scaled')",
+    "inversion sampler: _max_storage shrunk below the number of states is a scaled-down model of the overflow regime at 10^6 "
+    "(labelled 'scaled'); a cap is recorded when the sampler does not honour it",
 ]
 CHUNK = 1
 ONE_MINUS = 1.0 - 2.0 ** -53
+ULP = 2.0 ** -52
 
 
 # ----------------------------------------------------------------------------------------------------------------------
@@ -111,6 +154,14 @@ def lengths(pieces, hi):
     return out
 
 
+def where_returned(pieces, hi, state):
+    """(start, length) of the first piece that returns `state`."""
+    for (s, st), nxt in zip(pieces, pieces[1:] + [(hi, None)]):
+        if st == state:
+            return s, nxt[0] - s
+    return None, 0.0
+
+
 def compositions(D, K):
     if K == 1:
         yield (D,)
@@ -121,19 +172,91 @@ def compositions(D, K):
 
 
 # ----------------------------------------------------------------------------------------------------------------------
+# environment seams (scripted answers of the random sources the library consumes)
+# ----------------------------------------------------------------------------------------------------------------------
+
+def word_for(i, nbits):
+    """Answer of random.getrandbits(nbits) when the scripted random fraction is i / 2^32: its nbits leading bits."""
+    nbits = int(nbits)
+    return (i >> (32 - nbits)) if nbits <= 32 else (i << (nbits - 32))
+
+
+def uniform_answer(us, hi):
+    """Answer of numpy.random.uniform(low, high, size) for the scripted values us of [0, hi): the values themselves when the
+    library asks for [0, hi) (what the single-uniform entry point was recovered on), the affine image of the fractions
+    us / hi otherwise; as many values as asked for (the script is repeated / cut)."""
+    base = np.array(us, dtype=float)
+
+    def fake(low=0.0, high=1.0, size=None):
+        n = 1 if size is None else int(np.prod(size))
+        arr = np.resize(base, n).astype(float)
+        if not (float(low) == 0.0 and float(high) == float(hi)):
+            arr = float(low) + (float(high) - float(low)) * (arr / hi)
+        return arr if size is not None else float(arr[0])
+
+    return fake
+
+
+def first_choice(a, *args, **kw):
+    return list(a)[0]
+
+
+def last_choice(a, *args, **kw):
+    return list(a)[-1]
+
+
+class hidden_choice:
+    """numpy.random.choice answered by `answer` inside the block."""
+
+    def __init__(self, answer=first_choice):
+        self.answer = answer
+
+    def __enter__(self):
+        import numpy.random as npr
+
+        self.npr = npr
+        self.orig = npr.choice
+        npr.choice = self.answer
+        return self
+
+    def __exit__(self, *exc):
+        self.npr.choice = self.orig
+        return False
+
+
+# ----------------------------------------------------------------------------------------------------------------------
 # cases
 # ----------------------------------------------------------------------------------------------------------------------
+
+HEM = {"family": "hem", "exp": False, "params": {}}
+HEM_POS = {"family": "hem", "exp": False, "label": "hem-positive-jumps-only",
+           "params": {"sigma": 0.05, "p": 1.0, "eta1": 20.0, "eta2": 25.0, "intensity": 3.0}}
+# small negative jumps: the left truncation bound of the model-truncated uniform grid falls within h of the origin
+HEM_SHORT_LEFT_1 = {"family": "hem", "exp": True, "label": "hem-short-left", "r": 0.02, "d": 0.0, "spot": 100.0,
+                    "params": {"sigma": 0.1, "p": 0.6, "eta1": 10.0, "eta2": 50.0, "intensity": 3.0}}
+HEM_SHORT_LEFT_2 = {"family": "hem", "exp": True, "label": "hem-short-left", "r": 0.02, "d": 0.0, "spot": 80.0,
+                    "params": {"sigma": 0.1, "p": 0.4, "eta1": 12.0, "eta2": 60.0, "intensity": 4.0}}
+VG = {"family": "vg", "exp": False, "params": {}}
+CGMY05 = {"family": "cgmy", "exp": False, "params": {"c": 1.0, "g": 15.0, "m": 20.0, "y": 0.5}}
+CGMY12 = {"family": "cgmy", "exp": False, "params": {"c": 1.0, "g": 15.0, "m": 20.0, "y": 1.2}}
+MERTON_EXP = {"family": "merton", "exp": True, "params": {}, "r": 0.02, "d": 0.0, "spot": 100.0}
+ONE_LEFT = {"kind": "custom", "label": "one-left-point", "h": 0.1, "axis": [-0.1, 0.0, 0.1, 0.2, 0.3], "origin": 1}
+ONE_RIGHT = {"kind": "custom", "label": "one-right-point", "h": 0.1, "axis": [-0.3, -0.2, -0.1, 0.0, 0.1], "origin": 3}
+ONE_LEFT_3D = {"kind": "custom", "label": "one-left-point", "h": 0.1, "axis": [-0.1, 0.0, 0.1, 0.2], "origin": 1}
+METHODS_1D = ["ALIAS", "TABLE", "BINARYSEARCHTREE", "HUFFMANNTREE", "INVERSION", "BINARYSEARCHTREEADAPTED1D"]
+METHODS_ND = ["INVERSION", "BINARYSEARCHTREEADAPTED"]
+CLAYTON = {"kind": "clayton", "theta": 0.7, "eta": 0.3}
+
 
 def chain_specs(tier):
     thorough = tier == "thorough"
     out = []
-    models = [
-        {"family": "hem", "exp": False, "params": {}},
-        {"family": "vg", "exp": False, "params": {}},
-        {"family": "cgmy", "exp": False, "params": {"c": 1.0, "g": 15.0, "m": 20.0, "y": 0.5}},
-        {"family": "cgmy", "exp": False, "params": {"c": 1.0, "g": 15.0, "m": 20.0, "y": 1.2}},
-        {"family": "merton", "exp": True, "params": {}, "r": 0.02, "d": 0.0, "spot": 100.0},
-    ]
+
+    def add1(m, g, k, methods=METHODS_1D):
+        for meth in methods:
+            out.append({"sub": "chain", "dim": 1, "model": m, "grid": dict(g, refine=k), "method": meth})
+
+    models = [HEM, VG, CGMY05, CGMY12, MERTON_EXP]
     if thorough:
         models += [
             {"family": "hem", "exp": True, "params": {"sigma": 0.0, "p": 0.3, "eta1": 10.0, "eta2": 40.0, "intensity": 5.0},
@@ -157,16 +280,46 @@ def chain_specs(tier):
             {"kind": "geometric", "h": 0.1, "n_side": 4, "p": 0.99999},
             {"kind": "probability", "h": 0.1, "pmin": 0.05},
         ]
-    methods1 = ["ALIAS", "TABLE", "BINARYSEARCHTREE", "HUFFMANNTREE", "INVERSION", "BINARYSEARCHTREEADAPTED1D"]
     for m in models:
         for g in grids:
             for k in ((0, 1, 2) if thorough else (0, 1)):
                 if g["kind"] == "probability" and k > 1:
                     continue
-                for meth in methods1:
-                    out.append({"sub": "chain", "dim": 1, "model": m, "grid": dict(g, refine=k), "method": meth})
+                add1(m, g, k)
+    # model-truncated geometric grid
+    for m in models:
+        add1(m, {"kind": "geometric", "h": 0.1, "n_side": 3, "p": 0.99999}, 0)
+    # the "reinit" construction route of every family (parameters re-assigned, initialisation(), model constructor)
+    for m in A.with_reinit([HEM, VG, CGMY05, MERTON_EXP] + ([CGMY12] if thorough else [])):
+        if m.get("via") == "reinit":
+            add1(m, {"kind": "fixed", "h": 0.1, "n": 5}, 0)
+            if thorough:
+                add1(m, {"kind": "uniform", "h": 0.2, "p": 0.99999}, 1)
+    # one-sided models: the states of the empty side have probability exactly 0
+    # (HEM with p = 1; p = 0 is refused by the parameter object, so "negative jumps only" is not in the library's domain)
+    add1(HEM_POS, {"kind": "fixed", "h": 0.1, "n": 5}, 1)
+    add1(HEM_POS, {"kind": "geometric-bounds", "h": 0.1, "bounds": [-0.7, 0.4], "n_side": 3}, 0)
+    add1(HEM_POS, ONE_LEFT, 0)
+    add1(HEM_POS, ONE_RIGHT, 0)
+    if thorough:
+        add1(HEM_POS, ONE_RIGHT, 1)
+        add1(HEM_POS, {"kind": "fixed", "h": 0.1, "n": 3}, 0)
+    # a half axis with a single point
+    for m in ((HEM, CGMY12) + ((VG, MERTON_EXP) if thorough else ())):
+        for g in (ONE_LEFT, ONE_RIGHT):
+            for k in ((0, 1) if thorough else (0,)):
+                add1(m, g, k)
+    # production-like size
+    add1(HEM, {"kind": "fixed", "h": 0.01, "n": 401}, 0, [x for x in METHODS_1D if x != "TABLE"])
+    if thorough:
+        add1(VG, {"kind": "fixed", "h": 0.002, "n": 1001}, 0, ["ALIAS", "BINARYSEARCHTREE", "HUFFMANNTREE", "BINARYSEARCHTREEADAPTED1D"])
+
+    def addn(dim, cm, g, k):
+        for meth in METHODS_ND:
+            out.append({"sub": "chain", "dim": dim, "model": cm, "grid": dict(g, refine=k), "method": meth})
+
     cms = [
-        {"margins": ["hem", "vg"], "copula": {"kind": "clayton", "theta": 0.7, "eta": 0.3}},
+        {"margins": ["hem", "vg"], "copula": CLAYTON},
         {"margins": ["cgmy05", "cgmy12"], "copula": {"kind": "clayton", "theta": 3.0, "eta": 1.0}},
     ]
     if thorough:
@@ -186,12 +339,31 @@ def chain_specs(tier):
             for k in ((0, 1) if (thorough or g["kind"] == "fixed") else (0,)):
                 if g["kind"] == "credit" and k > 0 and not thorough:
                     continue
-                for meth in ("INVERSION", "BINARYSEARCHTREEADAPTED"):
-                    out.append({"sub": "chain", "dim": 2, "model": cm, "grid": dict(g, refine=k), "method": meth})
-    cm3 = {"margins": ["hem", "vg", "cgmy05"], "copula": {"kind": "clayton", "theta": 0.7, "eta": 0.3}}
-    for g in ([{"kind": "fixed", "h": 0.1, "n": 3}] + ([{"kind": "fixed", "h": 0.1, "n": 5}] if thorough else [])):
-        for meth in ("INVERSION", "BINARYSEARCHTREEADAPTED"):
-            out.append({"sub": "chain", "dim": 3, "model": cm3, "grid": dict(g, refine=0), "method": meth})
+                addn(2, cm, g, k)
+    # n-d grid shapes: one-point half axes, non-uniform axes, model-truncated axes
+    for cm in cms[:2]:
+        for g in (ONE_LEFT, ONE_RIGHT,
+                  {"kind": "geometric-bounds", "h": 0.1, "bounds": [-0.7, 0.4], "n_side": 3},
+                  {"kind": "geometric", "h": 0.1, "n_side": 3, "p": 0.99999},
+                  {"kind": "uniform", "h": 0.2, "p": 0.99}):
+            addn(2, cm, g, 0)
+            if thorough and g["kind"] == "custom":
+                addn(2, cm, g, 1)
+    short_left = {"margins": [HEM_SHORT_LEFT_1, HEM_SHORT_LEFT_2], "copula": CLAYTON}
+    addn(2, short_left, {"kind": "uniform", "h": 0.1, "p": 0.9}, 0)
+    if thorough:
+        addn(2, cms[0], {"kind": "uniform", "h": 0.1, "p": 0.99999}, 0)
+    # zero-probability states: one-sided margin, independent copula (only the axes carry mass), complete dependence
+    addn(2, {"margins": [HEM_POS, "hem"], "copula": CLAYTON}, {"kind": "fixed", "h": 0.1, "n": 5}, 0)
+    addn(2, {"margins": ["vg", HEM_POS], "copula": CLAYTON}, ONE_RIGHT, 0)
+    if not thorough:
+        addn(2, {"margins": ["hem", "hem2"], "copula": {"kind": "independent"}}, {"kind": "fixed", "h": 0.1, "n": 3}, 0)
+        addn(2, {"margins": ["hem", "vg"], "copula": {"kind": "dependent"}}, {"kind": "fixed", "h": 0.1, "n": 3}, 0)
+    cm3 = {"margins": ["hem", "vg", "cgmy05"], "copula": CLAYTON}
+    for g in ({"kind": "fixed", "h": 0.1, "n": 3}, {"kind": "fixed", "h": 0.1, "n": 5}, ONE_LEFT_3D):
+        addn(3, cm3, g, 0)
+    if thorough:
+        addn(3, {"margins": ["hem", HEM_POS, "vg"], "copula": CLAYTON}, {"kind": "fixed", "h": 0.1, "n": 3}, 0)
     return out
 
 
@@ -199,15 +371,18 @@ def history_specs(tier):
     thorough = tier == "thorough"
     depth = 4 if thorough else 3
     out = []
-    hem = {"family": "hem", "exp": False, "params": {}}
-    cg = {"family": "cgmy", "exp": False, "params": {"c": 1.0, "g": 15.0, "m": 20.0, "y": 1.2}}
-    cm = {"margins": ["hem", "vg"], "copula": {"kind": "clayton", "theta": 0.7, "eta": 0.3}}
+    cm = {"margins": ["hem", "vg"], "copula": CLAYTON}
+    cm3 = {"margins": ["hem", "vg", "hem2"], "copula": CLAYTON}
+    fixed5 = {"kind": "fixed", "h": 0.1, "n": 5, "refine": 0}
     for model, dim, grid in (
-        (hem, 1, {"kind": "fixed", "h": 0.1, "n": 5, "refine": 0}),
-        (cg, 1, {"kind": "geometric-bounds", "h": 0.1, "bounds": [-0.7, 0.4], "n_side": 3, "refine": 0}),
-        (hem, 1, {"kind": "credit", "h": 0.1, "a_frac": 0.5, "symmetric": True, "refine": 0}),
+        (HEM, 1, fixed5),
+        (CGMY12, 1, {"kind": "geometric-bounds", "h": 0.1, "bounds": [-0.7, 0.4], "n_side": 3, "refine": 0}),
+        (HEM, 1, {"kind": "credit", "h": 0.1, "a_frac": 0.5, "symmetric": True, "refine": 0}),
+        (HEM_POS, 1, dict(ONE_LEFT, refine=1)),
         (cm, 2, {"kind": "fixed", "h": 0.1, "n": 3, "refine": 0}),
         (cm, 2, {"kind": "credit", "h": 0.1, "a_frac": [0.4, 0.6], "symmetric": False, "refine": 0}),
+        (cm, 2, dict(ONE_LEFT, refine=0)),
+        (cm3, 3, {"kind": "fixed", "h": 0.1, "n": 3, "refine": 0}),
     ):
         for storage in (None, 3) + ((30,) if grid["kind"] == "credit" and dim == 2 else ()):
             out.append({"sub": "history", "dim": dim, "model": model, "grid": grid, "method": "INVERSION",
@@ -215,7 +390,19 @@ def history_specs(tier):
         out.append({"sub": "history", "dim": dim, "model": model, "grid": grid,
                     "method": "BINARYSEARCHTREEADAPTED1D" if dim == 1 else "BINARYSEARCHTREEADAPTED", "storage": None,
                     "depth": depth})
+    for meth in ("ALIAS", "TABLE", "BINARYSEARCHTREE", "HUFFMANNTREE"):
+        for model, grid in ((HEM, fixed5),) + (((VG, dict(ONE_RIGHT, refine=1)),) if thorough else ()):
+            out.append({"sub": "history", "dim": 1, "model": model, "grid": grid, "method": meth, "storage": None,
+                        "depth": min(depth, 3)})
     return out
+
+
+def rawbig_specs(tier):
+    out = [(257, "uniform"), (300, "linear"), (300, "geometric-ties-zeros"), (300, "dominant"), (1000, "linear"),
+           (1000, "geometric-ties-zeros")]
+    if tier == "thorough":
+        out += [(1000, "uniform"), (1024, "uniform"), (1000, "dominant"), (4096, "linear"), (4096, "geometric-ties-zeros")]
+    return [{"sub": "rawbig", "K": K, "shape": s} for K, s in out]
 
 
 def cases(tier):
@@ -234,13 +421,14 @@ def cases(tier):
     for D in (16, 12, 10):
         for K in range(1, (5 if thorough else 4)):
             out.append({"sub": "rawtable", "D": D, "K": K})
+    out += rawbig_specs(tier)
     out += chain_specs(tier)
     out += history_specs(tier)
     return out
 
 
 def check_case(sh, case):
-    {"raw": _raw, "rawx": _rawx, "rawtable": _rawtable, "chain": _chain, "history": _history}[case["sub"]](sh, case)
+    {"raw": _raw, "rawx": _rawx, "rawbig": _rawbig, "rawtable": _rawtable, "chain": _chain, "history": _history}[case["sub"]](sh, case)
 
 
 # ----------------------------------------------------------------------------------------------------------------------
@@ -291,13 +479,18 @@ def vec_class(c):
 def _raw(sh, case):
     D, K = case["D"], case["K"]
     n_nt = 0
+    probes = [(i + 0.5) / (K * D) for i in range(K * D)]
+    # every possible break point (multiples of 1/D: cumulative sums in any order; x/K: alias columns), the float on either side
+    pts = sorted({j / D for j in range(1, D)} | {x / K for x in range(1, K)})
+    singles = [0.0, ONE_MINUS]
+    for e in pts:
+        singles += [e, math.nextafter(e, math.inf), math.nextafter(e, -math.inf)]
     for c in compositions(D, K):
         if case["first"] is not None and c[0] != case["first"]:
             continue
         p = np.array(c, dtype=float) / D
-        probes = [(i + 0.5) / (K * D) for i in range(K * D)]
         for name, mk in raw_samplers(p).items():
-            sh.count("evaluations", len(probes))
+            sh.count("evaluations", len(probes) + len(singles))
             try:
                 f = mk()
                 cnt = [0] * K
@@ -314,6 +507,17 @@ def _raw(sh, case):
                         cls = "zero-probability-state-returned" if zero_hit else "law-differs"
                         sh.violation(f"C02:raw:{name}:{cls}:{vec_class(c)}",
                                      f"p={list(c)}/{D}: lattice counts {cnt} (units 1/{K * D}) instead of {want}", {"p": list(c), "D": D})
+                    else:
+                        for u in singles:
+                            k = f(u)
+                            if not (0 <= k < K):
+                                sh.violation(f"C02:raw:{name}:state-outside-range-at-single-float:{vec_class(c)}",
+                                             f"p={list(c)}/{D}: u={u!r} -> {k}", None)
+                                break
+                            if c[k] == 0:
+                                sh.violation(f"C02:raw:{name}:zero-probability-state-returned-at-single-float:{vec_class(c)}",
+                                             f"p={list(c)}/{D}: u={u!r} -> state {k} of probability 0", {"p": list(c), "D": D, "u": u})
+                                break
             except Exception as e:  # noqa
                 sh.violation(f"C02:raw:{name}:raises-{type(e).__name__}:{vec_class(c)}", f"p={list(c)}/{D}: {e!r}", None)
         if sum(1 for x in c if x) >= 2:
@@ -322,7 +526,25 @@ def _raw(sh, case):
     if n_nt:
         sh.nontriv()
     if K == 3 and D == 16:
-        sh.sample({"sub": "raw", "example_vector": [3 / 16, 0.0, 13 / 16], "probes": 48, "samplers": ["alias", "bst", "huffman"]})
+        sh.sample({"sub": "raw", "example_vector": [3 / 16, 0.0, 13 / 16], "probes": 48 + len(singles), "samplers": ["alias", "bst", "huffman"]})
+
+
+def judge_vector(sh, sub, name, p, pieces, hi, label):
+    """Law of a raw sampler recovered as pieces against the vector p: lengths within 1e-12 + 1e-9 p_k; a state of probability
+    exactly 0 or outside the range must not be returned on any probe (a piece of one float counts)."""
+    K = len(p)
+    L = lengths(pieces, hi)
+    for k in sorted(set(L) - set(range(K))):
+        sh.violation(f"C02:{sub}:{name}:state-outside-range", f"{label}: state {k} returned", None)
+    for k in range(K):
+        got = L.get(k, 0.0)
+        if p[k] == 0:
+            if k in L:
+                at, ln = where_returned(pieces, hi, k)
+                cls = "zero-probability-state-returned" + ("" if ln > 1e-12 else "-at-single-float")
+                sh.violation(f"C02:{sub}:{name}:{cls}", f"{label}: state {k} of probability 0 returned from u={at!r} on a length {ln!r}", None)
+        elif abs(got - p[k]) > 1e-12 + 1e-9 * p[k]:
+            sh.violation(f"C02:{sub}:{name}:law-differs", f"{label}: state {k} gets length {got!r} instead of {p[k]!r}", None)
 
 
 def _rawx(sh, case):
@@ -341,85 +563,134 @@ def _rawx(sh, case):
         p = np.array(p, dtype=float)
         K = len(p)
         for name, mk in raw_samplers(p).items():
-            f = mk()
-            pieces, ev, hi = recover_partition(f, 1 << 12, extra=alias_edges(K))
+            try:
+                f = mk()
+                pieces, ev, hi = recover_partition(f, 1 << 12, extra=alias_edges(K))
+            except Exception as e:  # noqa
+                sh.violation(f"C02:rawx:{name}:raises-{type(e).__name__}", f"p={p.tolist()}: {e!r}", None)
+                continue
             sh.count("evaluations", ev)
-            L = lengths(pieces, hi)
-            for k in range(K):
-                got = L.get(k, 0.0)
-                if abs(got - p[k]) > 1e-12 + 1e-9 * p[k]:
-                    cls = "zero-probability-state-returned" if p[k] == 0 else "law-differs"
-                    sh.violation(f"C02:rawx:{name}:{cls}", f"p={p.tolist()}: state {k} gets length {got!r} instead of {p[k]!r}", None)
-            if set(L) - set(range(K)):
-                sh.violation(f"C02:rawx:{name}:state-outside-range", f"p={p.tolist()}: states {sorted(L)}", None)
+            judge_vector(sh, "rawx", name, p, pieces, hi, f"p={p.tolist()}")
         sh.outcome(tuple(p.tolist()))
     sh.nontriv()
 
 
-def table_law(sh, tm, decode):
-    """Exact law of a TableMethod as a function of the 32-bit integer it consumes (seam random.getrandbits): for every low
-    byte, either the direct slot (independent of the upper bits: one probe) or the alias branch, whose map
-    'upper 24 bits -> state' is recovered by integer bisection from a sweep of 256 probes plus the alias column edges.
-    Returns (dict outcome -> probability, list of (low, returned, slot) mismatches for direct slots)."""
+def big_vector(K, shape):
+    k = np.arange(K, dtype=float)
+    if shape == "uniform":
+        w = np.ones(K)
+    elif shape == "linear":
+        w = k + 1.0
+    elif shape == "geometric-ties-zeros":
+        w = 2.0 ** -np.floor(k / max(K // 10, 1))
+        w[::7] = 0.0
+    elif shape == "dominant":
+        w = (k + 1.0)
+        w[:3] = 0.0
+        w = 0.08 * w / w.sum()
+        w[:3] = [0.5, 0.3, 0.12]
+    else:
+        raise ValueError(shape)
+    return w / w.sum()
+
+
+def _rawbig(sh, case):
+    """long probability vectors: sizes at which index dtypes, incomplete tree levels and long tie runs matter."""
     from rpylib.distribution.variate import table as T
 
-    J = list(tm.J)
+    K, shape = case["K"], case["shape"]
+    p = big_vector(K, shape)
+    label = f"{shape} vector of {K} entries"
+    n0 = 1 << int(math.ceil(math.log2(16 * K)))
+    for name, mk in raw_samplers(p).items():
+        try:
+            f = mk()
+            pieces, ev, hi = recover_partition(f, n0, extra=alias_edges(K) if name == "alias" else ())
+        except Exception as e:  # noqa
+            sh.violation(f"C02:rawbig:{name}:raises-{type(e).__name__}", f"{label}: {e!r}", None)
+            continue
+        sh.count("evaluations", ev)
+        judge_vector(sh, "rawbig", name, p, pieces, hi, label)
+        sh.outcome((K, shape, name, len(pieces)))
+    if shape == "dominant":
+        try:
+            tm = T.TableMethod(p, _ident)
+            prob = table_law(sh, tm, lambda r: int(np.asarray(r).ravel()[0]), K)
+        except Exception as e:  # noqa
+            sh.violation(f"C02:rawbig:table:raises-{type(e).__name__}", f"{label}: {e!r}", None)
+        else:
+            for k in sorted(set(prob) - set(range(K))):
+                sh.violation("C02:rawbig:table:state-outside-range", f"{label}: state {k}", None)
+            for k in range(K):
+                if abs(prob.get(k, 0.0) - p[k]) > 2.0 ** -20:
+                    sh.violation("C02:rawbig:table:law-differs", f"{label}: state {k} has probability {prob.get(k, 0.0)!r} instead of {p[k]!r}", None)
+            sh.outcome((K, shape, "table", len(prob)))
+    sh.nontriv()
+
+
+def table_law(sh, tm, decode, n_columns):
+    """Exact law of a TableMethod as a function of the 32-bit word it consumes (seam random.getrandbits): for every low
+    byte, either a direct slot (the table marks it and the answer is the same for 4 spread upper parts: counted 1/256) or
+    the alias branch, whose map 'upper 24 bits -> state' is recovered by integer bisection from a sweep of 256 probes plus the
+    alias column edges. Returns dict outcome -> probability."""
+    from rpylib.distribution.variate import table as T
+
+    J = list(getattr(tm, "J", []))
     orig = T.random.getrandbits
     prob = {}
-    mism = []
-    Ka = getattr(getattr(tm, "alias_method", None), "K", 1) or 1
+    Ka = getattr(getattr(tm, "alias_method", None), "K", None) or n_columns or 1
 
     def draw(i):
-        T.random.getrandbits = lambda nbits: i
+        T.random.getrandbits = lambda nbits: word_for(i, nbits)
         r = tm.sample(1)
         return decode(r[0] if hasattr(r, "__len__") else r)
 
     try:
         for low in range(256):
-            if J[low] >= 0:
-                k = draw((0x5A5A5A << 8) | low)
-                sh.count("evaluations")
-                want = decode(tm.states(J[low]))
-                if k != want:
-                    mism.append((low, k, want))
-                prob[k] = prob.get(k, 0.0) + 1.0 / 256
-            else:
-                def g(h, low=low):
-                    return draw((h << 8) | low)
+            if len(J) == 256 and J[low] >= 0:
+                ks = {draw((h << 8) | low) for h in (0x5A5A5A, 0x000000, 0xA5A5A5, 0xFFFFFF)}
+                sh.count("evaluations", 4)
+                if len(ks) == 1:
+                    k = ks.pop()
+                    prob[k] = prob.get(k, 0.0) + 1.0 / 256
+                    continue
 
-                n0 = 256
-                hs = {((1 << 24) * i) // n0 for i in range(n0)} | {(1 << 24) - 1}
-                for x in range(1, Ka):
-                    e = ((1 << 24) * x) // Ka
-                    hs.update(h for h in (e - 1, e, e + 1, e + 2) if 0 <= h < (1 << 24))
-                hs = sorted(hs)
-                vs = [g(h) for h in hs]
-                sh.count("evaluations", len(hs))
-                starts = [(0, vs[0])]
+            def g(h, low=low):
+                return draw((h << 8) | low)
 
-                def refine(a, fa, b, fb):
-                    while b - a > 1:
-                        m = (a + b) // 2
-                        fm = g(m)
-                        sh.count("evaluations")
-                        if fm == fa:
-                            a = m
-                        elif fm == fb:
-                            b = m
-                        else:
-                            refine(a, fa, m, fm)
-                            refine(m, fm, b, fb)
-                            return
-                    starts.append((b, fb))
+            n0 = 256
+            hs = {((1 << 24) * i) // n0 for i in range(n0)} | {(1 << 24) - 1}
+            for x in range(1, Ka):
+                e = ((1 << 24) * x) // Ka
+                hs.update(h for h in (e - 1, e, e + 1, e + 2) if 0 <= h < (1 << 24))
+            hs = sorted(hs)
+            vs = [g(h) for h in hs]
+            sh.count("evaluations", len(hs))
+            starts = [(0, vs[0])]
 
-                for i in range(len(hs) - 1):
-                    if vs[i] != vs[i + 1]:
-                        refine(hs[i], vs[i], hs[i + 1], vs[i + 1])
-                for (st0, st), nx in zip(starts, starts[1:] + [(1 << 24, None)]):
-                    prob[st] = prob.get(st, 0.0) + (nx[0] - st0) / float(1 << 32)
+            def refine(a, fa, b, fb):
+                while b - a > 1:
+                    m = (a + b) // 2
+                    fm = g(m)
+                    sh.count("evaluations")
+                    if fm == fa:
+                        a = m
+                    elif fm == fb:
+                        b = m
+                    else:
+                        refine(a, fa, m, fm)
+                        refine(m, fm, b, fb)
+                        return
+                starts.append((b, fb))
+
+            for i in range(len(hs) - 1):
+                if vs[i] != vs[i + 1]:
+                    refine(hs[i], vs[i], hs[i + 1], vs[i + 1])
+            for (st0, st), nx in zip(starts, starts[1:] + [(1 << 24, None)]):
+                prob[st] = prob.get(st, 0.0) + (nx[0] - st0) / float(1 << 32)
     finally:
         T.random.getrandbits = orig
-    return prob, mism
+    return prob
 
 
 def _rawtable(sh, case):
@@ -436,24 +707,19 @@ def _rawtable(sh, case):
         except Exception as e:  # noqa
             sh.violation(f"C02:rawtable:constructor-raises-{type(e).__name__}:{cls}", f"p={list(c)}/{D}: {e!r}", None)
             continue
-        J = list(tm.J)
-        want_slots = [int(256 * pk) for pk in p]
-        got_slots = [J.count(k) for k in range(K)]
-        if len(J) != 256 or got_slots != want_slots:
-            sh.violation(f"C02:rawtable:table-slots-differ-from-floor-256p:{cls}", f"p={list(c)}/{D}: slots {got_slots} (len {len(J)}) vs {want_slots}", None)
         try:
-            prob, mism = table_law(sh, tm, lambda r: int(np.asarray(r).ravel()[0]))
+            prob = table_law(sh, tm, lambda r: int(np.asarray(r).ravel()[0]), K)
         except Exception as e:  # noqa
             sh.violation(f"C02:rawtable:sample-raises-{type(e).__name__}:{cls}", f"p={list(c)}/{D}: {e!r}", None)
             continue
-        for low, k, want in mism:
-            sh.violation(f"C02:rawtable:direct-slot-not-returned:{cls}", f"p={list(c)}/{D}: low byte {low} -> {k}, table says {want}", None)
         for k in set(prob) - set(range(K)):
             sh.violation(f"C02:rawtable:state-outside-range:{cls}", f"p={list(c)}/{D}: state {k}", None)
         for k in range(K):
-            if abs(prob.get(k, 0.0) - p[k]) > 2.0 ** -20:
-                zc = "zero-probability-state-returned" if p[k] == 0 else "law-differs"
-                sh.violation(f"C02:rawtable:{zc}:{cls}", f"p={list(c)}/{D}: state {k} has probability {prob.get(k, 0.0)!r} instead of {p[k]!r}", None)
+            got = prob.get(k, 0.0)
+            if p[k] == 0 and got > 0:
+                sh.violation(f"C02:rawtable:zero-probability-state-returned:{cls}", f"p={list(c)}/{D}: state {k} has probability {got!r}", None)
+            elif abs(got - p[k]) > 2.0 ** -20:
+                sh.violation(f"C02:rawtable:law-differs:{cls}", f"p={list(c)}/{D}: state {k} has probability {got!r} instead of {p[k]!r}", None)
         if sum(1 for x in c if x) >= 2:
             n_nt += 1
     sh.outcome((D, K, n_nt))
@@ -465,21 +731,99 @@ def _rawtable(sh, case):
 # chain samplers
 # ----------------------------------------------------------------------------------------------------------------------
 
-def build_process(case):
+def make_copula_model_x(spec):
+    """as alphabets.make_copula_model, but a margin may be written out as a 1-d model spec instead of a name."""
+    from rpylib.model.utils import create_levy_copula_model
+
+    models = [A.make_model(dict(A.MARGINS[m]) if isinstance(m, str) else {k: v for k, v in m.items() if k != "label"})
+              for m in spec["margins"]]
+    return create_levy_copula_model(models=models, copula=A.make_copula(spec["copula"]))
+
+
+def make_grid_x(gspec, model, dim):
+    """as alphabets.make_grid, plus hand-made axes (kind 'custom': the same axis on every coordinate, CTMCGrid itself) and a
+    credit threshold moved towards the left bound when the stated fraction does not fit (VG: 0.5 l is within h of 0)."""
+    if gspec["kind"] == "custom":
+        from rpylib.grid.spatial import CTMCGrid
+
+        g = CTMCGrid(h=gspec["h"], origin_coordinate=gspec["origin"],
+                     axes=[np.array(gspec["axis"], dtype=float) for _ in range(dim)])
+        for _ in range(gspec.get("refine", 0)):
+            g.refine()
+        return g
+    if gspec["kind"] == "credit" and not isinstance(gspec["a_frac"], (list, tuple)):
+        for fr in (gspec["a_frac"], 0.8, 0.9):
+            try:
+                return A.make_grid(dict(gspec, a_frac=fr), model, dim)
+            except A.OutsideAlphabet:
+                continue
+        raise A.OutsideAlphabet("no credit threshold fits")
+    return A.make_grid(gspec, model, dim)
+
+
+def model_of(case):
+    if case["dim"] == 1:
+        return A.make_model({k: v for k, v in case["model"].items() if k != "label"})
+    return make_copula_model_x(case["model"])
+
+
+class _ZeroResult:
+    def get(self, timeout=None):
+        return 0.0
+
+
+class _ZeroPool:
+    def __init__(self, *a, **k):
+        pass
+
+    def __enter__(self):
+        return self
+
+    def __exit__(self, *a):
+        return False
+
+    def apply_async(self, func, args=(), kwds=None):
+        return _ZeroResult()
+
+
+class _ZeroMP:
+    Pool = _ZeroPool
+
+
+def process_on(case, model, grid):
+    """The chain through the public constructors. The copula chain's constructor starts a pathos pool to integrate the
+    small-jump covariance of infinite-variation margins (its diffusion matrix: not observed here, 0.5 s per chain): the pool
+    is answered by zeros while the constructor runs."""
+    import rpylib.process.markovchain.markovchainlevycopula as M
     from rpylib.distribution.sampling import SamplingMethod
     from rpylib.process.markovchain.markovchain import MarkovChainProcess
-    from rpylib.process.markovchain.markovchainlevycopula import MarkovChainLevyCopula
 
     method = SamplingMethod[case["method"]]
     if case["dim"] == 1:
-        model = A.make_model(case["model"])
-        grid = A.make_grid(case["grid"], model, 1)
-        proc = MarkovChainProcess(model=model, method=method, grid=grid)
-    else:
-        model = A.make_copula_model(case["model"])
-        grid = A.make_grid(case["grid"], model, case["dim"])
-        proc = MarkovChainLevyCopula(levy_copula_model=model, grid=grid, method=method)
-    return proc, grid
+        return MarkovChainProcess(model=model, method=method, grid=grid)
+    old = getattr(M, "mp", None)
+    M.mp = _ZeroMP
+    try:
+        return M.MarkovChainLevyCopula(levy_copula_model=model, grid=grid, method=method)
+    finally:
+        M.mp = old
+
+
+def build_process(case):
+    model = model_of(case)
+    grid = make_grid_x(case["grid"], model, case["dim"])
+    return process_on(case, model, grid), grid
+
+
+def model_label(m):
+    if "margins" in m:
+        return "+".join(x if isinstance(x, str) else (x.get("label") or x["family"]) for x in m["margins"]) + \
+            ("" if m["copula"]["kind"] == "clayton" else ":" + m["copula"]["kind"])
+    return (m.get("label") or m["family"]) + ("[reinit]" if m.get("via") == "reinit" else "")
+
+
+def grid_label(g):
+    return g["kind"] + (":" + g["label"] if g.get("label") else "")
 
 
 def target_law(proc, grid, dim):
@@ -520,35 +864,76 @@ def as_inc(x):
     return tuple(int(v) for v in a.ravel())
 
 
-def single_entry(proc, case):
-    """The single-uniform entry point of the sampler as a function u -> increment tuple, and the upper end of its domain."""
-    import rpylib.distribution.variate.huffmantree as H
-    import rpylib.distribution.variate.table as T
+def word_of(u):
+    return min(int(u * 4294967296.0), (1 << 32) - 1)
 
-    s = proc.sampling
-    meth = case["method"]
-    if meth == "ALIAS":
-        return (lambda u: as_inc(s.states(s._draw_with_u(u)))), 1.0
-    if meth == "BINARYSEARCHTREE":
-        return (lambda u: as_inc(s.sample_with_u(u))), 1.0
-    if meth == "HUFFMANNTREE":
-        return (lambda u: as_inc(s.states(H.sample_with_u(u, s.head)[0]))), 1.0
-    if meth in ("INVERSION", "BINARYSEARCHTREEADAPTED1D"):
-        return (lambda u: as_inc(s.sample_with_u(u))), 1.0
-    if meth == "BINARYSEARCHTREEADAPTED":
-        hi = float(s.uniform.high)
-        return (lambda u: as_inc(s.sample_with_us(np.array([u], dtype=float))[0])), hi
-    raise ValueError(meth)
+
+class Driver:
+    """The uniform-number interface of ONE sampler object: draw(u) = single-uniform entry point (the table method: one
+    sample(1) on the scripted 32-bit word floor(u 2^32)), batch(us) = the public batch call sample(size) on scripted
+    uniforms. The n-d adapted tree is always driven with the same, re-used argument array (it writes into its argument)."""
+
+    def __init__(self, proc, meth):
+        self.proc = proc
+        self.s = proc.sampling
+        self.meth = meth
+        self.hi = float(getattr(getattr(self.s, "uniform", None), "high", 1.0))
+        self._arr = np.empty(1, dtype=float)
+
+    def draw(self, u):
+        import rpylib.distribution.variate.huffmantree as H
+        import rpylib.distribution.variate.table as T
+
+        s, meth = self.s, self.meth
+        if meth == "ALIAS":
+            return as_inc(s.states(s._draw_with_u(u)))
+        if meth == "BINARYSEARCHTREE":
+            return as_inc(s.sample_with_u(u))
+        if meth == "HUFFMANNTREE":
+            return as_inc(s.states(H.sample_with_u(u, s.head)[0]))
+        if meth in ("INVERSION", "BINARYSEARCHTREEADAPTED1D"):
+            return as_inc(s.sample_with_u(u))
+        if meth == "BINARYSEARCHTREEADAPTED":
+            self._arr[0] = u
+            return as_inc(s.sample_with_us(self._arr)[0])
+        if meth == "TABLE":
+            orig = T.random.getrandbits
+            i = word_of(u)
+            T.random.getrandbits = lambda nbits: word_for(i, nbits)
+            try:
+                r = s.sample(1)
+            finally:
+                T.random.getrandbits = orig
+            return as_inc(r[0])
+        raise ValueError(meth)
+
+    def batch(self, us):
+        import rpylib.distribution.univariate.uniform as U
+        import rpylib.distribution.variate.table as T
+
+        if self.meth == "TABLE":
+            orig = T.random.getrandbits
+            words = collections.deque(word_of(u) for u in us)
+            T.random.getrandbits = lambda nbits: word_for(words.popleft(), nbits)
+            try:
+                r = self.s.sample(len(us))
+            finally:
+                T.random.getrandbits = orig
+            return [as_inc(x) for x in r]
+        orig = U.npr.uniform
+        U.npr.uniform = uniform_answer(us, self.hi)
+        try:
+            r = self.s.sample(size=len(us))
+        finally:
+            U.npr.uniform = orig
+        return [as_inc(x) for x in r]
 
 
 def _chain(sh, case):
-    import numpy.random as npr
-
     dim, meth = case["dim"], case["method"]
-    gk = case["grid"]["kind"]
-    mk = case["model"].get("family") or "+".join(case["model"]["margins"])
     tag = f"d{dim}:{meth.lower()}"
-    cls = f"{gk}:{mk}"
+    cls = f"{grid_label(case['grid'])}:{model_label(case['model'])}"
+    sh.cls(f"chain:{tag}:{grid_label(case['grid'])}")
     try:
         proc, grid = build_process(case)
     except A.OutsideAlphabet:
@@ -559,131 +944,142 @@ def _chain(sh, case):
         return
     law = target_law(proc, grid, dim)
     nstates = len(law)
+    if any(v == 0.0 for v in law.values()):
+        sh.cls(f"chain:{tag}:states-of-probability-zero")
     if meth == "TABLE":
         try:
-            prob, mism = table_law(sh, proc.sampling, as_inc)
+            prob = table_law(sh, proc.sampling, as_inc, len(grid.axes[0]))
         except Exception as e:  # noqa
             sh.violation(f"C02:chain:{tag}:sample-raises-{type(e).__name__}:{cls}", f"{e!r}", None)
             return
-        for low, k, want in mism[:1]:
-            sh.violation(f"C02:chain:{tag}:direct-slot-not-returned:{cls}", f"low byte {low} -> {k}, table says {want}", None)
         for inc, pk in law.items():
             got = prob.get(inc, 0.0)
-            if abs(got - pk) > 2.0 ** -20:
-                c2 = "zero-probability-state-returned" if pk == 0.0 else ("state-never-returned" if got == 0.0 else "law-differs")
+            if pk == 0.0 and got > 0.0:
+                sh.violation(f"C02:chain:{tag}:zero-probability-state-returned:{cls}", f"state increment {inc}: probability {got!r}, target 0", None)
+            elif abs(got - pk) > 2.0 ** -20:
+                c2 = "state-never-returned" if got == 0.0 else "law-differs"
                 sh.violation(f"C02:chain:{tag}:{c2}:{cls}", f"state increment {inc}: probability {got!r}, target {pk!r}", None)
         for st in set(prob) - set(law):
             c2 = "origin-returned" if not any(st) else "state-outside-grid"
             sh.violation(f"C02:chain:{tag}:{c2}:{cls}", f"increment {st} returned with probability {prob[st]!r}", None)
+        # the batch call on scripted words equals the element-wise call
+        try:
+            us = [((k * 2654435761) % (1 << 32)) / 4294967296.0 for k in range(1, 97)]
+            pa, _ = build_process(case)
+            pb, _ = build_process(case)
+            da, db = Driver(pa, meth), Driver(pb, meth)
+            single = [da.draw(u) for u in us]
+            batch = db.batch(us)
+            sh.count("evaluations", 2 * len(us))
+            if batch != single:
+                sh.violation(f"C02:chain:{tag}:batch-differs-from-single-uniform-entry:{cls}",
+                             f"sample(size={len(us)}) on scripted words differs from {len(us)} calls of sample(1)", None)
+        except Exception as e:  # noqa
+            sh.violation(f"C02:chain:{tag}:batch-call-raises-{type(e).__name__}:{cls}", f"sample(size=n): {e!r}", None)
         sh.outcome((tag, cls, case["grid"].get("refine"), nstates, len(prob)))
         if sum(1 for v in law.values() if v > 0) >= 2:
             sh.nontriv()
         return
     # hidden randomness: scripted numpy.random.choice, two answers
-    orig_choice = npr.choice
     results = []
     evals = 0
-    for pick in (0, -1):
-        npr.choice = lambda a, *args, pick=pick, **kw: list(a)[pick]
-        try:
-            procx, gridx = build_process(case)
-            f, hi = single_entry(procx, case)
-            n0 = 1 << max(10, int(math.ceil(math.log2(16 * max(nstates, 1)))))
-            extra = alias_edges(len(grid.axes[0]), hi) if meth == "ALIAS" else ()
-            pieces, ev, hi = recover_partition(f, n0, 0.0, hi, extra=extra)
-            evals += ev
-            results.append((pieces, hi, f))
-        except Exception as e:  # noqa
-            npr.choice = orig_choice
-            sh.violation(f"C02:chain:{tag}:single-uniform-entry-raises-{type(e).__name__}:{cls}", f"{e!r}", None)
-            return
-        finally:
-            npr.choice = orig_choice
+    n0 = 1 << max(10, int(math.ceil(math.log2(16 * max(nstates, 1)))))
+    for answer in (first_choice, last_choice):
+        with hidden_choice(answer):
+            try:
+                procx, gridx = build_process(case)
+                drv = Driver(procx, meth)
+                extra = alias_edges(len(grid.axes[0]), drv.hi) if meth == "ALIAS" else ()
+                pieces, ev, hi = recover_partition(drv.draw, n0, 0.0, drv.hi, extra=extra)
+                evals += ev
+                results.append((pieces, hi))
+            except Exception as e:  # noqa
+                sh.violation(f"C02:chain:{tag}:single-uniform-entry-raises-{type(e).__name__}:{cls}", f"{e!r}", None)
+                return
         if meth != "INVERSION":
             break
     sh.count("evaluations", evals)
-    pieces, hi, f = results[0]
+    pieces, hi = results[0]
     L = lengths(pieces, hi)
     scale = hi
-    # (1) law
+    # the zone at the top of [0, hi) where the rounded cumulative sums of a correct sampler may fall short of hi: the answer
+    # there is the inversion sampler's hidden choice (any state of the grid); not judged against a target of 0
+    top_zone = hi * (1.0 - (8 + nstates) * ULP)
+    # (1) law; a target of exactly 0 is judged on every probe
     worst = 0.0
     for inc, pk in law.items():
         got = L.get(inc, 0.0) / scale
         err = abs(got - pk)
         worst = max(worst, err)
-        tol = 1e-12 + 1e-9 * pk
-        if err > tol:
-            if pk == 0.0:
-                c2 = "zero-probability-state-returned"
-            elif got == 0.0:
-                c2 = "state-never-returned"
-            else:
-                c2 = "law-differs"
+        if pk == 0.0:
+            if inc in L:
+                at, ln = where_returned(pieces, hi, inc)
+                if meth == "INVERSION" and at >= top_zone:
+                    sh.count("hidden-choice-zone-answers")
+                    continue
+                c2 = "zero-probability-state-returned" + ("" if ln > 1e-12 else "-at-single-float")
+                sh.violation(f"C02:chain:{tag}:{c2}:{cls}",
+                             f"state increment {inc} of target probability 0 is returned from u={at!r} on a length {ln!r}",
+                             {"increment": inc, "u": at, "length": ln})
+        elif err > 1e-12 + 1e-9 * pk:
+            c2 = "state-never-returned" if got == 0.0 else "law-differs"
             sh.violation(f"C02:chain:{tag}:{c2}:{cls}",
                          f"state increment {inc}: recovered length {got!r}, target mass/intensity {pk!r} ({nstates} states)",
                          {"increment": inc, "recovered": got, "target": pk})
-    # (2) range
-    extra = [s for s in L if s not in law]
-    for s in extra:
-        frac = L[s] / scale
-        if not any(s):
-            c2 = "origin-returned"
-        else:
-            c2 = "state-outside-grid"
-        if frac > 4 * 2.0 ** -52:
-            sh.violation(f"C02:chain:{tag}:{c2}:{cls}", f"increment {s} returned on a set of length {frac!r}", None)
+    # (2) range: on any probe
+    for s in [s for s in L if s not in law]:
+        at, ln = where_returned(pieces, hi, s)
+        c2 = "origin-returned" if not any(s) else "state-outside-grid"
+        if ln <= 1e-12:
+            c2 += "-at-single-float"
+        sh.violation(f"C02:chain:{tag}:{c2}:{cls}", f"increment {s} returned from u={at!r} on a length {ln!r}", None)
     # (1b) the same law when the memoised prefix is shorter than the number of states (scaled-down overflow regime of the
     # inversion sampler: _max_storage is 10^6 in the library; here about 60 % of the states, so that the enumeration is
     # restarted behind the stored prefix for the remaining ones - on grids where the pairing skips inadmissible indices too)
     if meth == "INVERSION" and nstates >= 5:
-        npr.choice = lambda a, *args, **kw: list(a)[0]
-        try:
-            procs, grids_ = build_process(case)
-            procs.sampling._max_storage = max(3, int(0.6 * nstates))
-            fs, his = single_entry(procs, case)
-            ps, ev, his = recover_partition(fs, n0, 0.0, his)
-            sh.count("evaluations", ev)
-            Ls = lengths(ps, his)
-            for inc, pk in law.items():
-                got = Ls.get(inc, 0.0) / his
-                if abs(got - pk) > 1e-12 + 1e-9 * pk:
-                    sh.violation(f"C02:chain:{tag}:law-differs-under-scaled-storage:{cls}",
-                                 f"_max_storage={procs.sampling._max_storage} (of {nstates} states): state increment {inc}: recovered length {got!r}, target {pk!r}",
-                                 {"increment": inc, "recovered": got, "target": pk})
-                    break
-        except Exception as e:  # noqa
-            sh.violation(f"C02:chain:{tag}:scaled-storage-raises-{type(e).__name__}:{cls}", f"{e!r}", None)
-        finally:
-            npr.choice = orig_choice
+        storage = max(3, int(0.6 * nstates)) if nstates <= 150 else nstates - 24
+        with hidden_choice(first_choice):
+            try:
+                procs, _ = build_process(case)
+                procs.sampling._max_storage = storage
+                drs = Driver(procs, meth)
+                ps, ev, his = recover_partition(drs.draw, n0, 0.0, drs.hi)
+                sh.count("evaluations", ev)
+                Ls = lengths(ps, his)
+                for inc, pk in law.items():
+                    got = Ls.get(inc, 0.0) / his
+                    if abs(got - pk) > 1e-12 + 1e-9 * pk:
+                        sh.violation(f"C02:chain:{tag}:law-differs-under-scaled-storage:{cls}",
+                                     f"_max_storage={storage} (of {nstates} states): state increment {inc}: recovered length {got!r}, target {pk!r}",
+                                     {"increment": inc, "recovered": got, "target": pk})
+                        break
+                cum = getattr(procs.sampling, "_cumulative_probabilities", None)
+                if cum is None or len(cum) > storage:
+                    sh.cap("inversion sampler does not honour _max_storage: the scaled overflow regime was not reached")
+                elif len(cum) == storage:
+                    sh.count("scaled-storage-log-full")
+            except Exception as e:  # noqa
+                sh.violation(f"C02:chain:{tag}:scaled-storage-raises-{type(e).__name__}:{cls}", f"{e!r}", None)
     # (3) hidden randomness
     if len(results) == 2:
-        p2, hi2, _ = results[1]
+        p2, hi2 = results[1]
         L2 = lengths(p2, hi2)
         diff = sum(abs(L.get(k, 0.0) - L2.get(k, 0.0)) for k in set(L) | set(L2))
-        if diff > 8 * 2.0 ** -52:
+        if diff > 2 * (8 + nstates) * ULP:
             sh.violation(f"C02:chain:{tag}:result-depends-on-hidden-random-choice:{cls}",
                          f"the map u -> state changes on a set of length {diff / 2!r} with the answer of numpy.random.choice", None)
     # (4) batch equals element-wise single (through the uniform seam)
-    if True:
-        us = [p[0] for p in pieces[:40]] + [math.nextafter(p[0], -math.inf) for p in pieces[1:40]] + [0.0, math.nextafter(hi, -math.inf)]
-        us = [u for u in us if 0.0 <= u < hi]
-        import rpylib.distribution.univariate.uniform as U
-
-        orig_u = U.npr.uniform
+    sel = list(range(len(pieces)))
+    if len(sel) > 400:
+        sel = sorted({round(i * (len(pieces) - 1) / 399) for i in range(400)})
+    us = [pieces[i][0] for i in sel] + [math.nextafter(pieces[i][0], -math.inf) for i in sel if i > 0] + [0.0, math.nextafter(hi, -math.inf)]
+    us = [u for u in us if 0.0 <= u < hi]
+    with hidden_choice(first_choice):
         try:
             procb, _ = build_process(case)
-            fb, _ = single_entry(procb, case)
-            npr.choice = lambda a, *args, **kw: list(a)[0]
-            single = [fb(u) for u in us]
+            single = [Driver(procb, meth).draw(u) for u in us]
             procc, _ = build_process(case)
-            U.npr.uniform = lambda low=0.0, high=1.0, size=None: np.array(us, dtype=float)
-            npr.choice = lambda a, *args, **kw: list(a)[0]
-            try:
-                batch = procc.sampling.sample(size=len(us))
-                batch = [as_inc(b) for b in batch]
-            finally:
-                U.npr.uniform = orig_u
-                npr.choice = orig_choice
+            batch = Driver(procc, meth).batch(us)
             sh.count("evaluations", 2 * len(us))
             if batch != single:
                 j = next(i for i, (a, b) in enumerate(zip(batch, single)) if a != b) if len(batch) == len(single) else -1
@@ -691,13 +1087,12 @@ def _chain(sh, case):
                              f"sample(size={len(us)}) with scripted uniforms: element {j}: batch {batch[j] if j >= 0 else len(batch)} vs single {single[j] if j >= 0 else len(single)}",
                              {"u": us[j] if j >= 0 else None})
         except Exception as e:  # noqa
-            U.npr.uniform = orig_u
-            npr.choice = orig_choice
             sh.violation(f"C02:chain:{tag}:batch-call-raises-{type(e).__name__}:{cls}", f"sample(size=n): {e!r}", None)
     sh.outcome((tag, cls, case["grid"].get("refine"), nstates, len(pieces)))
     if sum(1 for v in law.values() if v > 0) >= 2:
         sh.nontriv()
-    if dim == 1 and meth == "INVERSION" and gk == "fixed" and case["grid"].get("n") == 5 and case["grid"].get("refine") == 0:
+    if dim == 1 and meth == "INVERSION" and case["grid"]["kind"] == "fixed" and case["grid"].get("n") == 5 \
+            and case["grid"].get("refine") == 0 and model_label(case["model"]) == "hem":
         sh.sample({"sub": "chain", "case": case, "pieces": [(s, list(st)) for s, st in pieces[:8]],
                    "target": {str(k): v for k, v in list(law.items())[:6]}, "max_abs_error": worst})
 
@@ -706,92 +1101,184 @@ def _chain(sh, case):
 # history search
 # ----------------------------------------------------------------------------------------------------------------------
 
-def _history(sh, case):
-    import numpy.random as npr
+def state_digest(obj, depth=3, prefix=""):
+    """Integer / float / string attributes and container sizes of obj and of the objects of rpylib.distribution it owns
+    (cost counters excluded: they grow with every draw and the property does not speak of them)."""
+    out = []
+    d = getattr(obj, "__dict__", None)
+    if not isinstance(d, dict):
+        return out
+    for name in sorted(d):
+        if "cost" in name:
+            continue
+        v = d[name]
+        path = prefix + name
+        if isinstance(v, (bool, int, float, str, type(None))):
+            out.append((path, v))
+        elif isinstance(v, (list, tuple, dict, set, frozenset, collections.deque)):
+            out.append((path, len(v)))
+        elif isinstance(v, np.ndarray):
+            out.append((path, tuple(v.shape)))
+        elif depth > 0 and type(v).__module__.startswith("rpylib.distribution"):
+            out += state_digest(v, depth - 1, path + ".")
+    return out
 
+
+def companion_model(case):
+    """another model of the same dimension (for the second sampler built on the same grid object)."""
+    if case["dim"] == 1:
+        return dict(case, model=VG if case["model"]["family"] == "hem" else HEM)
+    margins = list(case["model"]["margins"])
+    return dict(case, model={"margins": margins[1:] + margins[:1], "copula": {"kind": "clayton", "theta": 3.0, "eta": 0.0}})
+
+
+OPS = ("reset", "copy", "pickle", "batch", "other")
+OP_WORDS = {"reset": "cost-reset", "copy": "deepcopy", "pickle": "dill-round-trip", "batch": "batch-call",
+            "other": "second-sampler-on-the-grid"}
+
+
+def _history(sh, case):
     dim, meth = case["dim"], case["method"]
     tag = f"d{dim}:{meth.lower()}:{'scaled-storage' if case['storage'] else 'default-storage'}"
-    orig_choice = npr.choice
-    npr.choice = lambda a, *args, **kw: list(a)[0]
+    sh.cls(f"history:{tag}:{grid_label(case['grid'])}")
     try:
+        import dill
+    except Exception:  # noqa
+        dill = None
+
+    def new_driver(c=case, grid=None):
+        if grid is None:
+            p, _ = build_process(c)
+        else:
+            p = process_on(c, model_of(c), grid)
+        if case["storage"] and hasattr(p.sampling, "_max_storage"):
+            p.sampling._max_storage = case["storage"]
+        return Driver(p, meth)
+
+    with hidden_choice(first_choice):
         try:
-            proc0, grid = build_process(case)
+            d0 = new_driver()
         except A.OutsideAlphabet:
             sh.count("outside-alphabet-grid")
             return
-        f0, hi = single_entry(proc0, case)
-        law = target_law(proc0, grid, dim)
-        
+        hi = d0.hi
+        law = target_law(d0.proc, d0.proc.grid, dim)
         nstates = len(law)
-        pieces, ev, hi = recover_partition(f0, 1 << 10, 0.0, hi)
-        # menu: one u inside every piece, the first u of every piece, 0, top
-        menu_us = []
-        for (s, st), nx in zip(pieces, pieces[1:] + [(hi, None)]):
-            menu_us.append(s + (nx[0] - s) / 2)
-        menu_us += [pieces[len(pieces) // 2][0], 0.0, math.nextafter(hi, -math.inf)]
-        menu_us = sorted(set(menu_us))
-        if len(menu_us) > 14:
-            # spread over the whole of [0, hi): the draws beyond the memoised prefix are the interesting ones
-            idx = sorted({round(i * (len(menu_us) - 1) / 13) for i in range(14)})
-            menu_us = [menu_us[i] for i in idx]
+        if meth == "TABLE":
+            menu_us = [(j + 0.37) / 14 for j in range(14)]
+        else:
+            pieces, ev, hi = recover_partition(d0.draw, 1 << 10, 0.0, hi)
+            # menu: one u inside every piece, the first u of a middle piece, 0, top
+            menu_us = []
+            for (s, st), nx in zip(pieces, pieces[1:] + [(hi, None)]):
+                menu_us.append(s + (nx[0] - s) / 2)
+            menu_us += [pieces[len(pieces) // 2][0], 0.0, math.nextafter(hi, -math.inf)]
+            menu_us = sorted(set(menu_us))
+            if len(menu_us) > 14:
+                # spread over the whole of [0, hi): the draws beyond the memoised prefix are the interesting ones
+                idx = sorted({round(i * (len(menu_us) - 1) / 13) for i in range(14)})
+                menu_us = [menu_us[i] for i in idx]
+        n = len(menu_us)
+        sub = sorted({0, n // 3, (2 * n) // 3, n - 2, n - 1} & set(range(n)))
         fresh = {}
         for u in menu_us:
-            p, _ = build_process(case)
-            if case["storage"]:
-                p.sampling._max_storage = case["storage"]
-            fu, _ = single_entry(p, case)
-            fresh[u] = fu(u)
+            fresh[u] = new_driver().draw(u)
+        ccase = companion_model(case)
+        cfresh = {}
+        try:
+            for i in sub:
+                dc = new_driver(ccase)
+                cfresh[i] = (min(menu_us[i], math.nextafter(dc.hi, -math.inf)),)
+                cfresh[i] += (dc.draw(cfresh[i][0]),)
+        except Exception as e:  # noqa
+            sh.note(f"history: no second sampler for {tag} ({type(e).__name__})")
+            cfresh = None
+        ops = [o for o in OPS if not (o == "pickle" and dill is None) and not (o == "other" and cfresh is None)]
+        if dill is not None:
+            try:
+                dill.loads(dill.dumps(new_driver().proc))
+            except Exception as e:  # noqa
+                ops.remove("pickle")
+                sh.note(f"history: the process of {tag} does not survive a dill round trip ({type(e).__name__}): operation dropped")
+        events = [["u", i] for i in range(n)] + [[o, i] for o in ops for i in sub]
 
-        reuse = {"arr": None}
+        def apply(st, ev):
+            """apply one event to the state; the comparisons made are appended to st['bad'] when they fail."""
+            kind, i = ev
+            u = menu_us[i]
+            drv = st["drv"]
+            if kind == "reset":
+                drv.proc.reset_one_simulation_cost()
+                drv.s.reset_sampling_cost()
+            elif kind == "copy":
+                drv = st["drv"] = Driver(copy.deepcopy(drv.proc), meth)
+            elif kind == "pickle":
+                drv = st["drv"] = Driver(dill.loads(dill.dumps(drv.proc)), meth)
+            elif kind == "other":
+                if st["comp"] is None:
+                    st["comp"] = new_driver(ccase, grid=drv.proc.grid)
+                cu, want = cfresh[i]
+                got = st["comp"].draw(cu)
+                if got != want:
+                    st["bad"].append(("second-sampler-answer-depends-on-the-first-sampler-of-the-grid",
+                                      f"a second sampler ({model_label(ccase['model'])}) built on the grid of the first maps u={cu!r} to {got}, its fresh twin to {want}"))
+            if kind == "batch":
+                us3 = [menu_us[i], menu_us[(2 * i + 1) % n], menu_us[(i + n // 2) % n]]
+                got3 = drv.batch(us3)
+                want3 = [fresh[x] for x in us3]
+                st["obs"].append(got3)
+                if got3 != want3:
+                    st["bad"].append((None, f"batch call sample(3) on u={us3} gives {got3}, fresh samplers give {want3}"))
+            else:
+                got = drv.draw(u)
+                st["obs"].append(got)
+                if got != fresh[u]:
+                    st["bad"].append((None, f"u={u!r} is mapped to {got} but a fresh sampler maps it to {fresh[u]}"))
 
         def build(hist):
-            p, _ = build_process(case)
-            s = p.sampling
-            if case["storage"] and hasattr(s, "_max_storage"):
-                s._max_storage = case["storage"]
-            fu, _ = single_entry(p, case)
-            obs = []
-            if meth == "BINARYSEARCHTREEADAPTED":
-                # drive with a re-used argument array as well: sample_with_us mutates its argument
-                for i in hist:
-                    arr = np.array([menu_us[i]], dtype=float)
-                    obs.append(as_inc(s.sample_with_us(arr)[0]))
-            else:
-                for i in hist:
-                    obs.append(fu(menu_us[i]))
-            return p, obs
+            st = {"drv": new_driver(), "comp": None, "obs": [], "bad": []}
+            for j, ev in enumerate(hist):
+                if j == len(hist) - 1:
+                    st["bad"] = []
+                try:
+                    apply(st, ev)
+                except Exception as e:  # noqa
+                    st["bad"].append((f"raises-{type(e).__name__}", f"event {ev}: {e!r}"))
+                    break
+            return st
 
         def menu(state, hist):
-            return list(range(len(menu_us)))
+            return events
 
         def canon(state, hist):
-            p, obs = state
-            s = p.sampling
-            cum = getattr(s, "_cumulative_probabilities", None)
-            sm = getattr(s, "state_manager", None)
-            key = [len(cum) if cum is not None else None, getattr(sm, "_last_projected_index", None) if sm is not None else None]
-            if cum is None:
-                # caches only: the futures of the adapted trees depend on nothing but cached pure values; the state is
-                # the set of distinct draws made (kept so that the search still visits every ordered pair / triple)
-                key.append(tuple(sorted(set(hist))))
-            return tuple(key)
+            drawn = set()
+            for kind, i in hist:
+                drawn.update([i] if kind != "batch" else [i, (2 * i + 1) % n, (i + n // 2) % n])
+            return (tuple(state_digest(state["drv"].s)), tuple(sorted(drawn)), tuple(k for k, _ in hist if k != "u"))
+
+        def describe(ev):
+            return f"{ev[0]}@{menu_us[ev[1]]!r}" if ev[0] != "u" else repr(menu_us[ev[1]])
 
         def invariant(state, hist, ev):
-            if ev is None:
+            if ev is None or not state["bad"]:
                 return None
-            p, obs = state
-            u = menu_us[ev]
-            if obs[-1] != fresh[u]:
-                return (f"C02:history:{tag}:answer-depends-on-earlier-draws",
-                        f"after draws at u={[menu_us[i] for i in hist[:-1]]} the sampler maps u={u!r} to {obs[-1]} but a fresh sampler maps it to {fresh[u]}",
-                        {"history_us": [menu_us[i] for i in hist], "observed": obs})
-            return None
+            kinds = sorted({OP_WORDS[k] for k, _ in hist if k != "u"})
+            what, text = state["bad"][0]
+            what = what or ("answer-depends-on-earlier-draws" + "".join("-and-" + k for k in kinds))
+            return (f"C02:history:{tag}:{what}",
+                    f"after the history [{', '.join(describe(e) for e in hist[:-1])}] then {describe(hist[-1])}: {text}",
+                    {"history": hist, "menu_us": menu_us, "observed": state["obs"]})
 
         s_, t_, d_ = core.bfs(sh, build, menu, canon, invariant, case["depth"], max_states=4000)
         sh.count("evaluations", t_)
         sh.outcome((tag, nstates, s_, t_))
         sh.nontriv()
+        if case["storage"]:
+            d1 = new_driver()
+            for u in menu_us:
+                d1.draw(u)
+            cum = getattr(d1.s, "_cumulative_probabilities", None)
+            if cum is None or len(cum) > case["storage"]:
+                sh.cap("inversion sampler does not honour _max_storage: the scaled overflow regime was not reached")
         if dim == 1 and meth == "INVERSION" and case["storage"] is None and case["grid"]["kind"] == "fixed":
-            sh.sample({"sub": "history", "case": case, "menu_us": menu_us, "bfs_states": s_, "bfs_transitions": t_})
-    finally:
-        npr.choice = orig_choice
+            sh.sample({"sub": "history", "case": case, "menu_us": menu_us, "operations": ops, "bfs_states": s_, "bfs_transitions": t_})
